@@ -30,7 +30,7 @@ CHECKS = {
 }
 
 CLOSE_T = 0.3
-INTERRUPT_AFTER = 0.08
+INTERRUPT_AFTER = float(os.environ.get('LIFE_INTERRUPT_AFTER', '0.08'))
 OP_BOUND = 20.0
 
 
